@@ -117,6 +117,12 @@ func (g *Gen) genRanges() string {
 	return strings.Join(ls, ";")
 }
 
+// GenHistory draws a configuration and returns it with the script that generates one history for it.
+func GenHistory(rng *rand.Rand, p GenParams) (Conf, Script) {
+	conf := GenConf(rng, p)
+	return conf, NewGen(rng, conf, p).Next
+}
+
 func NewGen(rng *rand.Rand, conf Conf, p GenParams) *Gen {
 	g := &Gen{rng: rng, p: p, conf: conf, delayed: map[string]bool{}, allIPs: allIPsOf(conf.Pools), initPools: conf.Pools}
 	pol := func() int { return []int{0, 0, 1, 1, 2}[rng.Intn(5)] }
